@@ -160,6 +160,8 @@ func c05Case(r *evid.Run, tier string, idx int, g *rng.R) {
 		pool = append(pool, operand{s, xsel.String(s), cls, nil})
 	}
 	pool = append(pool, operand{true, xsel.Bool(true), "boolean", xast.Fn("true")}, operand{false, xsel.Bool(false), "boolean", xast.Fn("false")})
+	// the zero value of the NodeSet type is an empty node-set like any other
+	pool = append(pool, operand{refeval.NodeSet{}, xsel.NodeSet(nil), "node-set:nil", nil})
 
 	libBool := func(e xast.Expr, l, rr operand) (bool, bool) {
 		got, _, err := w.libEval(d.Root, xast.String(e), xsel.WithVariable("l", l.lib), xsel.WithVariable("r", rr.lib))
